@@ -68,7 +68,7 @@ PT makePoint(const typename PT::Scalar * x, int dim)
 // generation (double)
 // ------------------------------------------------------------------------------------------------
 enum CloudMode { UNIFORM, CLUSTERED, LATTICE, DUPLICATES, DEGENERATE, TINY };
-enum QueryMode { Q_INSIDE, Q_ON_POINT, Q_NEAR_POINT, Q_FAR_DIAG, Q_FAR_AXIS, Q_JUST_OUTSIDE, Q_CELL };
+enum QueryMode { Q_INSIDE, Q_ON_POINT, Q_NEAR_POINT, Q_FAR_DIAG, Q_FAR_AXIS, Q_JUST_OUTSIDE, Q_CELL, Q_PREVIOUS_NUDGED };
 
 struct Cloud
 {
@@ -124,10 +124,17 @@ Cloud genCloud(vf::Ctx & c)
   cl.scale = c.s.rlog("scale", 1e-2, 1e3);
   // centre of the cloud: the origin, or up to 1000 extents away (float clouds then collapse onto few values: ties)
   double centre[3] = {0, 0, 0};
-  if (c.s.pick("offset_class", {3, 1}) == 1) {
+  size_t offsetClass = c.s.pick("offset_class", {6, 2, 1});
+  if (offsetClass == 1) {
     double off = c.s.rlog("offset", 1.0, 1e3);
     for (int d = 0; d < D; ++d) {centre[d] = cl.scale * off * c.s.uni("offset_dir", -1.0, 1.0);}
     c.label("cloud-far-from-origin");
+  } else if (offsetClass == 2) {
+    // geo-referenced data: coordinates 1e4..1e7 extents away from the origin (map-projection scale; in double the
+    // neighbour spacing is still far above the rounding of the coordinates, in float the cloud collapses to ties)
+    double off = c.s.rlog("offset_geo", 1e4, 1e7);
+    for (int d = 0; d < D; ++d) {centre[d] = cl.scale * off * (c.s.flag("offset_geo_negative") ? -1.0 : 1.0) * c.s.uni("offset_geo_dir", 0.3, 1.0);}
+    c.label("cloud-geo-referenced(offset>=1e4 extents)");
   }
   vf::Rng rng(c.s.seed("cloud_seed"));
   const double sc = cl.scale;
@@ -234,7 +241,8 @@ std::vector<Query> genQueries(vf::Ctx & c, const Cloud & cl)
   std::vector<Query> qs;
   for (int j = 0; j < nq; ++j) {
     Query q;
-    q.mode = static_cast<int>(c.s.pick("q_mode", {4, 2, 2, 3, 3, 2, 2}));
+    q.mode = static_cast<int>(c.s.pick("q_mode", {4, 2, 2, 3, 3, 2, 2, 3}));
+    if (q.mode == Q_PREVIOUS_NUDGED && j == 0) {q.mode = Q_INSIDE;}
     size_t kc = c.s.pick("q_k_class", {1, 2, 1});
     q.k = (kc == 0) ? 1 : (kc == 2 ? kmax : static_cast<size_t>(c.s.i("q_k", 1, static_cast<int64_t>(kmax))));
     double inside[3];
@@ -244,6 +252,16 @@ std::vector<Query> genQueries(vf::Ctx & c, const Cloud & cl)
       case Q_INSIDE:
         for (int d = 0; d < D; ++d) {q.q[d] = inside[d];}
         break;
+      case Q_PREVIOUS_NUDGED: {
+          // almost the previous query (relative 1e-9 .. 1e-5, or exactly the same): consecutive queries of a scan
+          double rel = (rng.below(5) == 0) ? 0.0 : std::pow(10.0, -rng.uniform(5.0, 9.0));
+          double nrm = 0;
+          for (int d = 0; d < D; ++d) {nrm += qs.back().q[d] * qs.back().q[d];}
+          nrm = std::sqrt(nrm);
+          for (int d = 0; d < D; ++d) {q.q[d] = qs.back().q[d] + rel * nrm * rng.uniform(-1.0, 1.0);}
+          q.far = qs.back().far;
+          break;
+        }
       case Q_ON_POINT:
         for (int d = 0; d < D; ++d) {q.q[d] = cl.x[pi * D + d];}
         break;
